@@ -275,7 +275,7 @@ def journal_run(sink, case, sub_start, progress):
     names = case['names']
     if names == ['stress']:
         progress(0)
-        stress(sink, case['cap'], case.get('seed', 0))
+        stress(sink, case['cap'], case.get('seed', 0), progress)
         return
     ident = dict(ops=names, scenario=case['scen'], yield_offset=case['offset'])
     rng = random.Random(f'c17:{names}:{case["scen"]}')
@@ -358,12 +358,12 @@ def journal_run(sink, case, sub_start, progress):
 
 
 # ------------------------------------------------------------------------------------ preemptive stress
-def stress(sink, iters, seed):
+def stress(sink, iters, seed, progress=None):
     """Many threads, microsecond switch interval, mixed operations on shared objects while other
     threads (un)register unrelated types; result oracle at join."""
     old = sys.getswitchinterval()
     sys.setswitchinterval(1e-6)
-    faulthandler.dump_traceback_later(240, exit=True)
+    faulthandler.dump_traceback_later(1800, exit=True)
     try:
         c = c15.build_ctx(0)
         kw = dict(none_is_leaf=False, namespace=c['ns'])
@@ -417,8 +417,13 @@ def stress(sink, iters, seed):
         rs = [threading.Thread(target=registrar, args=(i,)) for i in range(3)]
         for t in rs + ws:
             t.start()
+        beat = 0
         for t in ws:
-            t.join()
+            while t.is_alive():
+                t.join(1.0)
+                beat += 1
+                if progress is not None:
+                    progress(beat)  # heartbeat for the stall watchdog (a stress run is one long step)
         stop.set()
         for t in rs:
             t.join()
